@@ -974,15 +974,15 @@ func execC14(e *Env, pp any) {
 }
 
 func init() {
-	Register(&Family{Name: "c09.clientfail", Props: []string{"C09"}, New: func() any { return &C09Params{} }, Gen: genC09, Exec: execC09,
+	Register(&Family{Name: "c09.clientfail", ShrinkKeys: []string{"calls", "late", "pos"}, Props: []string{"C09"}, New: func() any { return &C09Params{} }, Gen: genC09, Exec: execC09,
 		Faulty: true, FaultKinds: []string{"link.readFail", "link.writeFail"}})
-	Register(&Family{Name: "c10.shutdown", Props: []string{"C10"}, New: func() any { return &C10Params{} }, Gen: genC10, Exec: execC10,
+	Register(&Family{Name: "c10.shutdown", ShrinkKeys: []string{"calls", "pos"}, Props: []string{"C10"}, New: func() any { return &C10Params{} }, Gen: genC10, Exec: execC10,
 		Faulty: true, FaultKinds: []string{"link.readFail", "link.writeFail", "server.stop", "link.stall"}})
-	Register(&Family{Name: "c11.abandon", Props: []string{"C11"}, New: func() any { return &C11Params{} }, Gen: genC11, Exec: execC11,
+	Register(&Family{Name: "c11.abandon", ShrinkKeys: []string{"others"}, Props: []string{"C11"}, New: func() any { return &C11Params{} }, Gen: genC11, Exec: execC11,
 		Faulty: true, FaultKinds: []string{"handler.abandon", "ctx.cancel"}})
-	Register(&Family{Name: "c14.history", Props: []string{"C14"}, New: func() any { return &C14Params{} }, Gen: genC14, Exec: execC14,
+	Register(&Family{Name: "c14.history", ShrinkKeys: []string{"n", "inflight"}, Props: []string{"C14"}, New: func() any { return &C14Params{} }, Gen: genC14, Exec: execC14,
 		Faulty: true, FaultKinds: []string{"ctx.cancel", "ctx.deadline", "open.writeFail", "handler.abandon"}})
-	Register(&Family{Name: "c20.outcomes", Props: []string{"C20"}, New: func() any { return &C14Params{} }, Gen: func(g *rand.Rand, tier string) any {
+	Register(&Family{Name: "c20.outcomes", ShrinkKeys: []string{"n", "inflight"}, Props: []string{"C20"}, New: func() any { return &C14Params{} }, Gen: func(g *rand.Rand, tier string) any {
 		p := genC14(g, tier).(*C14Params)
 		p.N = 8 + g.IntN(30)
 		p.Side = drawSideOpts(g)
@@ -1018,6 +1018,6 @@ func genC15Break(g *rand.Rand, tier string) any {
 }
 
 func init() {
-	Register(&Family{Name: "c15.break", Props: []string{"C15", "C09"}, New: func() any { return &C09Params{} }, Gen: genC15Break, Exec: execC09,
+	Register(&Family{Name: "c15.break", ShrinkKeys: []string{"calls", "pos"}, Props: []string{"C15", "C09"}, New: func() any { return &C09Params{} }, Gen: genC15Break, Exec: execC09,
 		Faulty: true, FaultKinds: []string{"link.readFail", "link.writeFail"}})
 }
